@@ -302,6 +302,16 @@ def enumerate_cases(tier):
     for op in UNOPS:
         for a in ints:
             yield {"dag": [["root", 0], ["un", op, 0]], "inputs": [a, 0, "a", [], 1, 2, 3], "watch": [], "steps": [["read", 1]]}
+    # reflected forms with operands for which the operator is not commutative (sequence concatenation / repetition)
+    for root, consts in ((2, ["x-", ""]), (3, [[9], []])):
+        for c in consts:
+            for op in ("+",):
+                yield {"dag": [["root", root], ["bin", op, ["c", c], ["n", 0]]], "inputs": [1, 2, "ab", [1, 2], 1, 2, 3], "watch": [],
+                       "steps": [["read", 1], ["set", root, "b" if root == 2 else [3]], ["read", 1]]}
+                yield {"dag": [["root", root], ["bin", op, ["n", 0], ["c", c]]], "inputs": [1, 2, "ab", [1, 2], 1, 2, 3], "watch": [],
+                       "steps": [["read", 1]]}
+        yield {"dag": [["root", root], ["bin", "*", ["c", 2], ["n", 0]]], "inputs": [1, 2, "ab", [1, 2], 1, 2, 3], "watch": [],
+               "steps": [["read", 1]]}
     # argument table: pipeline root x form of the other operand (another rx root, a raw Parameter of the same / another
     # object, an rx over a Parameter of the same object) x which side is updated between two reads
     hist = [["read", -1], ["set", "ARG", 9], ["read", -1], ["set", "ROOT", 4], ["read", -1], ["batch", 5, 6], ["read", -1],
